@@ -259,6 +259,12 @@ func (g *opGen) fieldsFor(d *ast.Definition, depth int, want int) []string {
 			s = key + ": " + f.Name
 			g.feat["alias"] = true
 		}
+		if g.opt.Aliases && isRootDef(g.schema, d) && !g.opt.NodeRoot && !used["node"] && g.rng.Intn(7) == 0 {
+			// a root field answering under the response key `node` is not the Relay lookup
+			key = "node"
+			s = "node: " + f.Name
+			g.feat["root_alias_node"] = true
+		}
 		if g.opt.AliasID && g.rng.Intn(8) == 0 {
 			if f.Name == "id" {
 				key = "ident"
@@ -290,6 +296,10 @@ func (g *opGen) fieldsFor(d *ast.Definition, depth int, want int) []string {
 		parts = append(parts, s)
 	}
 	return parts
+}
+
+func isRootDef(s *ast.Schema, d *ast.Definition) bool {
+	return d != nil && (d == s.Query || d == s.Mutation || d == s.Subscription)
 }
 
 // Operation generates one valid-looking operation against the merged schema.
